@@ -45,6 +45,8 @@ CODEC_CASE_OF_EVENT = {
     "classify": lambda e: {"op": "classify", "frame": e["frame"], "allow": e["allow"], "tag": e["tag"]},
     "crc": lambda e: {"op": "crc", "msg": e["msg"]},
     "coil": lambda e: {k: e[k] for k in ("op", "fc", "framing", "payload", "start", "addr", "method")},
+    "coilextract": lambda e: {"op": "coilextract", "fc": e["fc"], "payload": e["payload"], "start": e["start"], "data": e["addrs"]},
+    "coilroundtrip": lambda e: {"op": "coilroundtrip", "framing": e["framing"], "unit": 1, "addr": e["start"], "coils": e["coils"]},
     "trailer": lambda e: {"op": "trailer", "entry": e["entry"], "frame": e["frame"], "data": e["frame"][-2:], "tag": "list"},
     "trailer_all": lambda e: {"op": "trailer", "entry": e["entry"], "frame": e["frame"], "data": [], "tag": "all"},
 }
@@ -254,7 +256,7 @@ def c11(run):
              "addresses x every queried address inside, before and beyond (incl. 16-bit wrap probes) x IsCoilSet / IsInputSet; "
              "non-trivial = query inside the payload (value compared with bit (i mod 8) of byte (i div 8)) or outside (error demanded)",
         assumptions=["write/read-back relation is decided compositionally: C01 shows write requests pack coil i into bit i%8 of byte i/8, this check shows lookup reads the same bit"],
-        nontrivial=lambda tr: count_where(tr, lambda e: e.get("op") == "coil"))
+        nontrivial=lambda tr: count_where(tr, lambda e: e.get("op") in ("coil", "coilextract", "coilroundtrip")))
 
 
 @check("C18")
